@@ -9,6 +9,28 @@ IMPL_S = "impl Source for ConcatSource {"
 IMPL_C = "impl ConcatSource {"
 
 
+def leaf_raw_source(u):
+    """RawSource: a string or a binary value behind one type; the binary arm decodes lazily like RawBufferSource"""
+    relpath, impl_anchor, tname = "src/raw_source.rs", "impl Source for RawSource {", "RawSource"
+    u.item(relpath, "enum RawValue {")
+    u.item(relpath, "pub struct RawSource {")
+    u.raw("impl Source for RawSource {\n"
+          "  closed spec fn text(&self) -> Seq<u8> { match self.value { RawValue::String(v) => cow_str_bytes(&v), RawValue::Buffer(v) => match lock_val(&self.value_as_string) { Some(s) => encode_utf8(s@), None => lossy(v@) } } }\n"
+          "  closed spec fn raw(&self) -> Seq<u8> { match self.value { RawValue::String(v) => cow_str_bytes(&v), RawValue::Buffer(v) => v@ } }", ("glue", NAME))
+    for fn in ("source", "rope", "buffer", "size"):
+        m = u.method(relpath, impl_anchor, fn)
+        if fn in ("source", "rope"):
+            m.rule("W2", r"\.get_or_init\(\|\| String::from_utf8_lossy\(v\)\.to_string\(\)\)",
+                   ".get_or_init(|| -> (r: String) ensures encode_utf8(r@) == lossy(v@) { lossy_string(v) })", fn=fn)
+        if fn == "rope":
+            m.rule("D6f", r"RawValue::Buffer\(v\) => Rope::from\(", "RawValue::Buffer(v) => Rope::from_string(", fn="rope")
+            m.rule("D6f", r"RawValue::String\(s\) => Rope::from\(s\)", "RawValue::String(s) => Rope::from_cow(s)", fn="rope")
+        m.body_start(fn, f"{tname}::{fn}.hint.deref", "hint", "broadcast use {axiom_cow_str_deref, axiom_str_len_bound};")
+        m.body_start(fn, f"canary.{tname}::{fn}", "canary", "proof { assert(false); }")
+        u.contracted.append((f"<{tname} as Source>::{fn}", relpath))
+    u.raw("}", ("glue", NAME))
+
+
 def leaf(u, relpath, struct_anchor, impl_anchor, tname, field, text_spec, from_fn, raw_spec=None, lazy=False):
     """a leaf's four content views against the reduced trait's contract (= C07 for that leaf): the methods are cut verbatim out of
     `impl Source for <leaf>` and re-assembled as an impl of the reduced trait, so Verus checks each against the trait's `ensures`"""
@@ -114,6 +136,7 @@ def build(u):
     # D6: `SourceMap` (fields of SourceMapSource that the four content views never touch) as an opaque type
     u.raw("#[verifier::external_body]\npub struct SourceMap { _p: std::marker::PhantomData<u8> }", ("glue", NAME))
     leaf(u, "src/source_map_source.rs", "pub struct SourceMapSource {", "impl Source for SourceMapSource {", "SourceMapSource", "value", "encode_utf8(self.value@)", "from_string")
+    leaf_raw_source(u)
     leaf(u, "src/raw_source.rs", "pub struct RawBufferSource {", "impl Source for RawBufferSource {", "RawBufferSource", "value", 
          "match lock_val(&self.value_as_string) { Some(s) => encode_utf8(s@), None => lossy(self.value@) }", "from_string", raw_spec="self.value@", lazy=True)
     leaf(u, "src/raw_source.rs", "pub struct RawStringSource(", "impl Source for RawStringSource {", "RawStringSource", "0", "cow_str_bytes(&self.0)", "from_cow")
